@@ -132,3 +132,41 @@ class _ExclAnswer:
 
     def ensures_at_most_one(result):
         return count_true(result) <= 1
+
+
+# ------------------------------------------------------------------ bounded companion (never counted as proved)
+from pyvc.api import table          # noqa: E402
+
+
+def _native_answer(word):
+    import bromelia.base as B
+    from bromelia.avps import ResultCodeAVP
+    rc = ResultCodeAVP(2001)
+    rc._data = word.to_bytes(4, "big")
+    a = B.DiameterAnswer.__new__(B.DiameterAnswer)
+    a.__dict__.update({"_header": B.DiameterHeader(), "_avps": [rc], "_loaded": False, "result_code_avp": rc})
+    return a
+
+
+@table("small-codes", prop="C17")
+def small_codes():
+    """the contract clauses evaluated natively on the real predicates for every code 0..9999, codes around
+    every multiple of 1000 up to 2^32 and a spread of large words; so that a rewrite the proof cannot follow
+    is still checked, with the failing code in hand"""
+    from pyvc.conform import conform
+    codes = list(range(0, 10000)) + [k * 1000 + d for k in range(10, 70, 7) for d in (-1, 1, 999)] \
+        + [2 ** 32 - 1, 2 ** 32 - 999, 2 ** 31 + 3001, 16777216 * 3 + 3005, 65536 * 5 + 5012]
+    out = []
+    for k, f in [(1, "is_result_code_family_1xxx"), (2, "is_result_code_family_2xxx"),
+                 (3, "is_result_code_family_3xxx"), (4, "is_result_code_family_4xxx"),
+                 (5, "is_result_code_family_5xxx")]:
+        chk, skip, fails = conform("C17/utils." + f, ({"result_code": n} for n in codes + [-1, -999, -3001]))
+        out.append((f, not fails and chk > 0, {"checked": chk, "failing": fails}))
+    for k, f in [(1, "is_1xxx_informational"), (2, "is_2xxx_success"), (3, "is_3xxx_failure"),
+                 (4, "is_4xxx_failure"), (5, "is_5xxx_failure")]:
+        chk, skip, fails = conform("C17/utils." + f, ({"answer": _native_answer(n)} for n in codes))
+        out.append((f, not fails and chk > 0, {"checked": chk, "failing": fails}))
+    return out
+
+
+small_codes.bounded = "codes 0..9999 plus boundary and large 32-bit words, native evaluation of the contract clauses"
